@@ -24,6 +24,8 @@ def t_signature(c, msg):
     sc = c.get("scenario")
     if msg.startswith("setup:"):
         return "C10:harness-setup-failed"
+    if msg.startswith("ghost:"):
+        return SIG_GHOST
     if sc == "inside":
         return SIG_INSIDE
     if sc == "during":
@@ -32,8 +34,6 @@ def t_signature(c, msg):
     if c.get("mode") == "callback" and o.get("closer_local") == 0 and o.get("closer_remote") == 0 and o.get("closer_state") == 1:
         # fingerprint of the half-close branch of Close(): the closing end ends closed without any close callback
         return SIG_DURING
-    if sc == "inflight-to-closed" and ("still counts as active" in msg or "still active" in msg):
-        return SIG_GHOST
     return "C10:" + re.sub(r"\d+", "#", msg)[:70]
 
 
